@@ -10,12 +10,12 @@ package stats
 //@ protected stats.Op.count by false @C14
 //@ protected stats.Op.nanos by false @C14
 
-//@ spec (*Op).Record
+//@ spec (*Op).Record(op, start)
 //@   props C14 C11
 //@   requires op != nil
 //@   modifies op.count, op.nanos
 
-//@ spec (*Op).Reset
+//@ spec (*Op).Reset(op)
 //@   props C14 C11
 //@   requires op != nil
 //@   modifies op.count, op.nanos
